@@ -18,10 +18,16 @@ Fills == {"zero", "ff", "random"}
 Setters == {"username", "realm", "nonce", "software", "reason", "xorip", "mappedip", "errorcode", "integrity"}
 Contexts == {"empty", "one", "three", "fp", "fp-then-attr"}
 
+\* C08: a "use" of a Message - how it is filled (decode family or build family), with how many attributes
+\* and of which value-length class (every padding residue, shorter/equal/longer than the neighbour use)
+Uses == [kind : {"decode", "write", "unmarshal", "readfrom", "build", "addonly"}, n : {0, 1, 3}, vlen : {1, 2, 3, 4, 9, 30}]
+
 VARIABLE s
 Init ==
   IF Which = "C07"
   THEN s \in [g : Getters, len : Lens, pos : Positions, cap : Caps, fill : Fills]
+  ELSE IF Which = "C08"
+  THEN s \in [prev : Uses, next : Uses]
   ELSE s \in [setter : Setters, ctx : Contexts]
 Next == UNCHANGED s
 Spec == Init /\ [][Next]_s
